@@ -13,6 +13,7 @@ CONSTANTS
   HydCounts = {}
   ChargeToks <- Q_None
   PrefixSet = {}
+  MaxPrefixes = 1
   SuffixSet = {}
   PrimeMarks = {}
   MaxPrimes = 0
